@@ -103,6 +103,9 @@ Spec == Init /\ [][Next]_vars
 \* invariant of every observed state: no handle ever exceeds the capacity bound
 CapOK == \A h \in DOMAIN hs : Len(hs[h]) <= PMAX - 1
 
+\* reaching the end of the trace ends the search at once (reported by TLC as a violation of NotDone = accepted);
+\* otherwise the postcondition reports the longest matched prefix
+NotDone == l <= Len(Rec)
 Matched == TLCGet("stats").diameter - 1
 TraceAccepted ==
     \/ Matched = Len(Rec)
